@@ -58,6 +58,15 @@ def judge(ctx) -> None:
     if cfg.ind_b & 8:
         if not any(i[1][2][:2] == (0, 0) for i in fin_b):
             w.violate("C03.receiver_success", locus, f"finished indications at receiver: {[i[1][2] for i in fin_b]}")
+    # recovery means the retry procedures got through: with every limit above K no limit fault is ever due, and no user is
+    # told that the delivered file failed after all
+    for side, fins in (("sender", fin_a), ("receiver", fin_b)):
+        bad = [i[1][2] for i in fins if i[1][2][0] != 0]
+        if bad:
+            w.violate("C03.unsuccessful_indication", locus, f"{side}: {bad}")
+    flts = w.fault_log[ctx.info.get("base_fault", 0):]
+    if flts:
+        w.violate("C03.fault_declared", locus, f"{[(f[0], f[1][0], f[1][2]) for f in flts][:4]}")
 
 
 # ---------------------------------------------------------------------------------------------
